@@ -1,6 +1,8 @@
 import XmppModel.Prelude.Hex
 import XmppModel.Model.Ibb
 import XmppModel.Model.IbbReader
+import XmppModel.Model.IbbSend
+import XmppModel.Model.IbbClose
 /-! Driver module for C15.
 
     C15 recv <maxbuf> <ops>    ops `,`-joined:  d:<known>:<seq>:<payloadhex>  data packet
@@ -64,6 +66,17 @@ def readerRun : IbbReader.St → List String → Nat → Except String IbbReader
     | some s' => readerRun s' ts (k + 1)
     | none => .error s!"bad@{k}:{t}"
 
+/-- `C15 pack <bs> <ops>`: the executable packetiser.  ops `,`-joined: w:<hex> Write, f Flush,
+C Close.  answer: the data stanzas `<seq>:1:<payloadhex>` `,`-joined (`-` if none) -/
+def parseSOp (t : String) : Option SOp :=
+  match t.splitOn ":" with
+  | ["w", h] => (hexDecode h).map SOp.write
+  | ["f"] => some .flush
+  | ["C"] => some .close
+  | _ => none
+
+def showPacket (p : Packet) : String := s!"{p.seq}:{showBool p.known}:{hexEncode p.payload}"
+
 def handle (args : List String) : Option String :=
   match args with
   | ["recv", maxbuf, ops] => do
@@ -74,9 +87,33 @@ def handle (args : List String) : Option String :=
     match readerRun IbbReader.init (splitList acts) 0 with
     | .ok s => some s!"delivered={s.delivered} eof={showBool s.eof} reading={showBool (s.rpc != .idle)}"
     | .error e => some e
+  | ["pack", bs, ops] => do
+    let b ← bs.toNat?
+    let os ← mapM? parseSOp (splitList ops)
+    pure (joinList ((mkPackets 0 (srun (sinit b) os).chunks).map showPacket))
+  | ["close", fault] =>
+    -- C15 close <none|flush|send|reply|deadline>: Close with a fault at that step, then Read and a
+    -- late data packet.  answer: ret=<ok|err> read=<EOF|BLOCK> data=<inf|ack>
+    let p := IbbClose.closeProgram
+    let fk : Option (Option Nat) :=
+      if fault = "none" ∨ fault = "reply" then some none
+      else if fault = "flush" then some (IbbClose.indexOf p .flush)
+      else if fault = "send" ∨ fault = "deadline" then some (IbbClose.indexOf p .sendCloseIQ)
+      else none
+    fk.map fun k =>
+      let r := IbbClose.run k p
+      let rx : RState := if r.rxClosed then Ibb.close ⟨true, 0, [], 0⟩ else ⟨true, 0, [], 0⟩
+      let rd := match readOut rx 8 with | .eof => "EOF" | .blocks => "BLOCK" | .data _ => "DATA"
+      let d := if fault = "send" then "skip" else showReply (recv std rx ⟨true, 0, []⟩).2
+      s!"ret={if r.failed then "err" else "ok"} read={rd} data={d}"
   | ["open", acc] => do
     let a ← parseBool acc
     pure (if (openResult a).isSome then "conn" else "err")
+  | ["recvfrom", start, maxbuf, ops] => do
+    -- a receiver that has accepted `start` packets (C15_deliver: its counter is start mod 65536)
+    let st ← start.toNat?; let m ← maxbuf.toNat?
+    let r ← runOps ⟨true, st % 65536, [], m⟩ (splitList ops)
+    pure (joinList r)
   | ["emit", closed, written, packets] => do
     let c ← parseBool closed; let w ← hexDecode written
     let ps ← mapM? parsePacket (splitList packets)
